@@ -297,6 +297,32 @@ func init() {
 		leakFamily("break-in-try-in-loop", "", `let k = 0; loop { k = k + 1; try { if k > 2 { break; } } catch e { y = 0; } }`),
 		leakFamily("object-and-index", "", `let o = new { a: [i, i + 1], b: "s" }; y = o.a[1] + o.b.len();`),
 		leakFamily("option-unwrap", "", `let o = ?i; y = o.unwrap_or(0);`),
+		leakFamily("retry-loop-in-diverging-if", `fn attempt(i: int) -> int {
+    let tries = 0;
+    if i % 2 == 0 {
+        loop {
+            try {
+                tries = tries + 1;
+                if tries < 2 { throw("not ready"); }
+                break;
+            } catch e {
+                tries = tries + 10;
+            }
+        }
+    } else {
+        return 0 - 1;
+    }
+    100 + tries
+}`, `y = y + attempt(i) % 7;`),
+		leakFamily("retry-loop-in-diverging-match", `fn attempt2(i: int) -> int {
+    let tries = 0;
+    match i % 3 {
+        0 => { loop { try { tries = tries + 1; if tries < 3 { throw("again"); } break; } catch e { tries = tries + 1; } } },
+        1 => { return 5; },
+        _ => { throw("never here"); },
+    }
+    tries
+}`, `y = y + attempt2(i * 3 + i % 2) % 7;`),
 		leakFamily("bare-return", "fn maybe(i: int) { if i % 2 == 0 { return; } let z = i; if z > 5 { return; } }", `maybe(i); y = y + 1;`),
 		leakFamily("bare-return-in-loop", "fn scan(i: int) { for k in 0..4 { if k == i % 4 { return; } } }", `scan(i); y = y + 1;`),
 		leakFamily("unused-try-value", "", `try { if i % 2 == 0 { throw("x"); } 1 } catch e { 2 }; y = y + 1;`),
@@ -559,6 +585,9 @@ func runC09(t *testing.T, spec RunSpec) *Verdict {
 		}
 	} else {
 		treeLimit = uint(k)
+		if spec.P("treelimit_max", 0) == 1 {
+			treeLimit = ^uint(0)
+		}
 		peakK = f.depthOf(d)
 	}
 	slack := c09Slack
@@ -807,6 +836,14 @@ func planC09(t *testing.T, tier string, seed uint64) ([]RunSpec, error) {
 	bigs := []struct{ d, k int }{{9000, 12000}, {9000, 8000}}
 	if !quick(tier) {
 		bigs = []struct{ d, k int }{{9000, 9003}, {9000, 12000}, {9000, 20000}, {9000, 8000}, {9000, 4000}, {3000, 3003}, {3000, 2500}}
+	}
+	// the largest limit there is: every program is within it
+	for _, d := range []int{3, 60} {
+		s := RunSpec{Property: "C09", Workload: "c09/recursion/interp-unlimited", Params: map[string]int{"fam": 0, "d": d, "backend": 1, "treelimit_max": 1}, Fault: map[string]int{"kind": 0, "k": 1 << 40}}
+		s.Sim = SimParams{StepCostNs: 100}
+		s.Seed = runSeed(seed, idx)
+		idx++
+		plan = append(plan, s)
 	}
 	for _, big := range bigs {
 		s := RunSpec{Property: "C09", Workload: "c09/recursion/interp-large", Params: map[string]int{"fam": 0, "d": big.d, "backend": 1}, Fault: map[string]int{"kind": 0, "k": big.k}}
